@@ -1,27 +1,15 @@
-(* Recorded findings for C10 (findings_proposed/C10.txt).  Each statement exhibits a grammar-conforming file on
-   which the faithful model of srt/reader.py does not return the cues written; the witnesses are also run
-   against the real code by harness/c10.py on every check.  If this file stops compiling a finding is stale,
-   which the check reports as such (it is not a violation). *)
-From TT Require Import Base.Prelude Base.SrtTypes Model.SrtReader Spec.SrtCueSpec Proofs.C10.Witness.
+(* Recorded findings for C10 (findings_proposed/C10.txt).  Each statement exhibits an input on which the faithful
+   model of srt/reader.py does not return the cues written; the witnesses are also run against the real code by
+   harness/c10.py on every check.  If this file stops compiling a finding is stale, which the check reports as such
+   (it is not a violation).
+   The four findings recorded earlier (brace-short-tags, stray-end-tag, literal-backslash-n-backslash-r,
+   crlf-kept-in-untranslated-stream) are repaired in the code: their refuted statements are gone and their witnesses
+   are read as written (Properties/C10.v, C10_repaired_witnesses). *)
+From TT Require Import Base.Prelude Base.SrtTypes Model.SrtReader Spec.SrtCueSpec Spec.SrtWriterOut Proofs.C10.Witness.
 
-(* id=brace-short-tags : {b}x{/b} is read as literal text *)
-Theorem C10_brace_short_refuted : exists f, wf_file f = true /\ trigger_brace_short f = true /\
-  read_cues (print_file f) <> Ok (cues f) /\ read_cues_file (print_file f) <> Ok (cues f).
-Proof. exact brace_short_refuted. Qed.
-(* id=stray-end-tag : a</b>c raises TypeError; <b>x</i>y</b> ends bold at </i> *)
-Theorem C10_stray_end_refuted : exists f, wf_file f = true /\ trigger_stray_end f = true /\
-  read_cues (print_file f) = Raised ETypeError /\ read_cues_file (print_file f) = Raised ETypeError.
-Proof. exact stray_end_refuted. Qed.
-Theorem C10_mismatched_end_refuted : wf_file f_mismatch = true /\ trigger_stray_end f_mismatch = true /\
-  read_cues (print_file f_mismatch) <> Ok (cues f_mismatch).
-Proof. exact mismatched_end_refuted. Qed.
-(* id=literal-backslash-n-backslash-r *)
-Theorem C10_backslash_refuted : exists f, wf_file f = true /\ plain_file f = true /\ trigger_backslash f = true /\
-  read_cues (print_file f) <> Ok (cues f) /\ read_cues_file (print_file f) <> Ok (cues f).
-Proof. exact backslash_refuted. Qed.
-(* id=crlf-kept-in-untranslated-stream : exact through a text-mode file, not through a stream that keeps CR LF *)
-Theorem C10_crlf_untranslated_refuted : exists f, wf_file f = true /\ plain_file f = true /\ trigger_crlf_untranslated f false = true /\
-  read_cues (print_file f) <> Ok (cues f) /\ read_cues_file (print_file f) = Ok (cues f).
-Proof. exact crlf_untranslated_refuted. Qed.
-Print Assumptions C10_brace_short_refuted.  Print Assumptions C10_stray_end_refuted.  Print Assumptions C10_mismatched_end_refuted.
-Print Assumptions C10_backslash_refuted.  Print Assumptions C10_crlf_untranslated_refuted.
+(* id=hours-beyond-999-rejected : a cue that ends at 1000 h or later is printed by the SRT writer with a four-digit
+   hour field (1000:00:00,000); the reader's pattern [0-9]{2,3} does not accept it: "Missing timecode", None returned *)
+Theorem C10_writer_hours_refuted : exists cs, wwf cs = true /\ trigger_hours_1000 cs = true /\
+  read_cues (wprint cs) = RetNone /\ read_cues_file (wprint cs) = RetNone.
+Proof. exact writer_hours_refuted. Qed.
+Print Assumptions C10_writer_hours_refuted.
